@@ -132,6 +132,13 @@ func c18Values() []c18Value {
 		m.Sig = refmodel.Sign(tk, append([]byte{3}, m.Bytes()...))
 		v2, _, err := lease_set2.ReadLeaseSet2(m.Bytes())
 		add("LeaseSet2(parsed, offline, unsorted options)", &v2, err)
+		// an encryption key of a type the library has no size for (carried opaquely)
+		m2 := ls.Value.(refmodel.LeaseSet2)
+		m2.Keys = append(append([]refmodel.EncKey(nil), m2.Keys...), refmodel.EncKey{Type: 0xFE00, Data: refmodel.Fill("opaque", 1, 40)})
+		m2.Sig = nil
+		m2.Sig = refmodel.Sign(ls.Signer, append([]byte{3}, m2.Bytes()...))
+		v3, _, err := lease_set2.ReadLeaseSet2(m2.Bytes())
+		add("LeaseSet2(parsed, opaque key type)", &v3, err)
 		c, err := adapt.LeaseSet2(ls.Value.(refmodel.LeaseSet2), ls.Signer)
 		add("LeaseSet2(constructed)", c, err)
 	}
@@ -144,6 +151,10 @@ func c18Values() []c18Value {
 		m.Sig = refmodel.Sign(ms.Signer, append([]byte{7}, m.Bytes()...))
 		v, _, err := meta_leaseset.ReadMetaLeaseSet(m.Bytes())
 		add("MetaLeaseSet(parsed)", &v, err)
+		if mo, ok := c18GenWhere(gen.MetaLeaseSet, func(s gen.Signed) bool { return s.Value.(refmodel.MetaLeaseSet).Offline != nil }); ok {
+			v2, _, err := meta_leaseset.ReadMetaLeaseSet(mo.Bytes)
+			add("MetaLeaseSet(parsed, offline)", &v2, err)
+		}
 	}
 	{
 		es := gen.EncryptedLeaseSet(choose.Run(nil, func(*choose.Ctx) {}))
@@ -151,6 +162,12 @@ func c18Values() []c18Value {
 		add("EncryptedLeaseSet(parsed)", &v, err)
 		c, err := adapt.EncryptedLeaseSet(es.Value.(refmodel.EncryptedLeaseSet), es.Signer, adapt.ELSStdPriv)
 		add("EncryptedLeaseSet(constructed)", c, err)
+		if eo, ok := c18GenWhere(gen.EncryptedLeaseSet, func(s gen.Signed) bool { return s.Value.(refmodel.EncryptedLeaseSet).Offline != nil }); ok {
+			v2, _, err := encrypted_leaseset.ReadEncryptedLeaseSet(eo.Bytes)
+			add("EncryptedLeaseSet(parsed, offline)", &v2, err)
+			c2, err := adapt.EncryptedLeaseSet(eo.Value.(refmodel.EncryptedLeaseSet), eo.Signer, adapt.ELSStdPriv)
+			add("EncryptedLeaseSet(constructed, offline)", c2, err)
+		}
 	}
 	{
 		os_, dt := gen.OfflineAlone(choose.Run(nil, func(*choose.Ctx) {}))
@@ -180,6 +197,18 @@ func c18Values() []c18Value {
 		add("Lease2(parsed)", &l2, err)
 	}
 	return out
+}
+
+// c18GenWhere returns the first value of the generator (within one variation, in exploration
+// order) that satisfies pred.
+func c18GenWhere(g func(*choose.Ctx) gen.Signed, pred func(gen.Signed) bool) (found gen.Signed, ok bool) {
+	choose.Explore(1, 1, func() bool { return ok }, func(c *choose.Ctx) {
+		s := g(c)
+		if !ok && pred(s) {
+			found, ok = s, true
+		}
+	})
+	return
 }
 
 func renderOuts(out []reflect.Value) string {
@@ -396,9 +425,30 @@ func lastLineWith(txt, prefix string) string {
 
 // C18Race: the free-running pass (this function runs inside the -race binary).
 func C18Race(rounds int) {
-	vals := c18Values()
 	var calls int64
 	var mu sync.Mutex
+	// cold phase: freshly built values, no warm-up call before the goroutines start, so that a
+	// lazily filled cache (in the value or at package level) is first written under contention
+	for cold := 0; cold < 3; cold++ {
+		for _, v := range c18Values() {
+			ops := c18Ops(v)
+			var wg sync.WaitGroup
+			for g := 0; g < 8; g++ {
+				wg.Add(1)
+				go func(g int) {
+					defer wg.Done()
+					for k := range ops {
+						ops[(k+g*5)%len(ops)].run()
+					}
+					mu.Lock()
+					calls += int64(len(ops))
+					mu.Unlock()
+				}(g)
+			}
+			wg.Wait()
+		}
+	}
+	vals := c18Values()
 	for _, v := range vals {
 		ops := c18Ops(v)
 		solo := make([]string, len(ops))
